@@ -85,7 +85,7 @@ PROPS = {
              "answer is an integer tuple that extends to a solution; non-trivial = >1 solution or >=1 answer; distinct = distinct case lines; (2) raw with a STATE DUMP (`rst` case lines): substitution of every program variable, domain store and constraint store (kind + walk*ed operands, sorted) of every state the body goal delivers, real State vs model State",
         trusted=SEARCH_TRUST,
         assumptions=[],
-        open=["the global exactness theorems (C16_state_sound, C17_no_solution_lost) cover every constraint kind except distinctfd / distinctfd2: for those the end-to-end statement is carried by the correspondence and the brute-force oracle", "`no stored constraint is ground at an answer` (an answer state is closed) and the assembly of labelling + reification into the reported answer are carried by the correspondence"],
+        open=["the global exactness theorems (C16_state_sound, C17_no_solution_lost) cover every constraint kind except distinctfd / distinctfd2: for those the end-to-end statement is carried by the correspondence and the brute-force oracle", "that every domain-store key is unbound (so labelling empties the domain store), the normal form of stored disequalities, and the assembly of labelling + reification into the reported answer are carried by the correspondence"],
     ),
     "C17": dict(
         title="CLP(FD) labelling completeness and uniqueness",
@@ -94,7 +94,7 @@ PROPS = {
              "disjunction path it satisfies; non-trivial = >1 solution or >=1 answer; distinct = distinct case lines",
         trusted=SEARCH_TRUST,
         assumptions=[],
-        open=["the global exactness theorems (C16_state_sound, C17_no_solution_lost) cover every constraint kind except distinctfd / distinctfd2: for those the end-to-end statement is carried by the correspondence and the brute-force oracle", "`no stored constraint is ground at an answer` (an answer state is closed) and the assembly of labelling + reification into the reported answer are carried by the correspondence"],
+        open=["the global exactness theorems (C16_state_sound, C17_no_solution_lost) cover every constraint kind except distinctfd / distinctfd2: for those the end-to-end statement is carried by the correspondence and the brute-force oracle", "that every domain-store key is unbound (so labelling empties the domain store), the normal form of stored disequalities, and the assembly of labelling + reification into the reported answer are carried by the correspondence"],
     ),
     "C19": dict(
         title="CLP(Z) plusz/timesz",
